@@ -196,6 +196,57 @@ for _name, _pre in (('CHclosed', ''), ('CHclosedNonring', 'nonringatom ')):
         'ring': 'rule %s{ reactant r1{ %sC labeled c1 H labeled h1 single '
                 'bond to c1 } break bond (c1, h1) increase number of radical '
                 '(c1) increase number of radical (h1) }' % (_name, _pre)}
+def _allyl_shift(atoms, bonds):
+    # C1=C2-C3  ->  C1-C2=C3 (a pure bond-order rule; on the allyl radical
+    # it gives the reactant back)
+    out = []
+    nb = {}
+    for (i, j), o in bonds.items():
+        nb.setdefault(i, []).append((j, o))
+        nb.setdefault(j, []).append((i, o))
+    for c2 in nb:
+        if atoms[c2][0] != 'C':
+            continue
+        for c1, o1 in nb[c2]:
+            if o1 != 2 or atoms[c1][0] != 'C':
+                continue
+            for c3, o3 in nb[c2]:
+                if c3 == c1 or o3 != 1 or atoms[c3][0] != 'C':
+                    continue
+                b = dict(bonds)
+                b[(min(c1, c2), max(c1, c2))] = 1
+                b[(min(c2, c3), max(c2, c3))] = 2
+                out.append([(list(atoms), b)])
+    return out
+
+
+def _ccc_break_first(atoms, bonds):
+    # pattern c1-c2-c3 (single bonds), break (c1, c2): a C-C single bond
+    # whose second carbon has another carbon neighbour by a single bond
+    out = []
+    nb = {}
+    for (i, j), o in bonds.items():
+        if o == 1 and atoms[i][0] == 'C' and atoms[j][0] == 'C':
+            nb.setdefault(i, []).append(j)
+            nb.setdefault(j, []).append(i)
+    for c2 in nb:
+        for c1 in nb[c2]:
+            if any(c3 != c1 for c3 in nb[c2]):
+                b = dict(bonds)
+                del b[(min(c1, c2), max(c1, c2))]
+                out.append(components(list(atoms), b))
+    return out
+
+
+RULES['allylShift'] = {
+    'smarts': '[C:1]=[C:2][C:3]>>[C:1][C:2]=[C:3]', 'fn': _allyl_shift,
+    'ring': None}
+RULES['CCCbreakFirst'] = {
+    'smarts': None, 'fn': _ccc_break_first,
+    'ring': 'rule CCCbreakFirst{ reactant r1{ C? labeled c1 C? labeled c2 '
+            'single bond to c1 C? labeled c3 single bond to c2 } break bond '
+            '(c1, c2) increase number of radical (c1) increase number of '
+            'radical (c2) }'}
 RULE_NAMES = sorted(RULES)
 
 
